@@ -1027,6 +1027,11 @@ lys_compile_unres_llist_dflts(struct lysc_ctx *ctx, struct lysc_node_leaflist *l
 
     assert(dflt || dflts);
 
+    if (!dflts && (llist->flags & LYS_MAND_TRUE)) {
+        /* ignore the default value of the type for leaf-lists with min-elements, just like for mandatory leaves */
+        return LY_SUCCESS;
+    }
+
     /* in case there were already some defaults and we are adding new by deviations */
     orig_count = LY_ARRAY_COUNT(llist->dflts);
 
